@@ -15,6 +15,7 @@
 #include <boost/gil/extension/io/targa.hpp>
 #include <boost/gil/extension/io/tiff.hpp>
 
+#include <cctype>
 #include <fstream>
 #include <map>
 #include <sstream>
@@ -74,6 +75,11 @@ static void spit(std::string const& path, std::string const& bytes)
 {
     std::ofstream f(path, std::ios::binary);
     f.write(bytes.data(), static_cast<std::streamsize>(bytes.size()));
+}
+static std::string ascii_end(std::string t, std::uint64_t seed)
+{
+    if (seed & 2) while (!t.empty() && std::isspace(static_cast<unsigned char>(t.back()))) t.pop_back();
+    return t;
 }
 
 // ------------------------------------------------------------------------------------------------ the checks for one file with native type Img
@@ -395,9 +401,10 @@ static void run_case(Case const& c)
         case 0: write_random<gil::rgb8_image_t>(path, w, h, seed, gil::pnm_tag(), gil::image_write_info<gil::pnm_tag>()); break;
         case 1: write_random<gil::gray8_image_t>(path, w, h, seed, gil::pnm_tag(), gil::image_write_info<gil::pnm_tag>()); break;
         case 2: write_random<g1_t>(path, w, h, seed, gil::pnm_tag(), gil::image_write_info<gil::pnm_tag>()); break;
-        case 3: spit(path, make_pnm_ascii(int(w), int(h), 3, seed)); break;
-        case 4: spit(path, make_pnm_ascii(int(w), int(h), 2, seed)); break;
-        case 5: spit(path, make_pnm_ascii(int(w), int(h), 1, seed)); break;
+        // ASCII variants: every second file ends right after its last digit (no trailing white space), which is valid PNM
+        case 3: spit(path, ascii_end(make_pnm_ascii(int(w), int(h), 3, seed), seed)); break;
+        case 4: spit(path, ascii_end(make_pnm_ascii(int(w), int(h), 2, seed), seed)); break;
+        case 5: spit(path, ascii_end(make_pnm_ascii(int(w), int(h), 1, seed), seed)); break;
         default: path = g_corpus + "/pnm/" + PNM_CORPUS[v - 6]; corpus = true; small = false; break;
         }
         check_file<F_PNM>(path, c, small, native);
